@@ -117,6 +117,11 @@ EXTRA = {
     'local-vs-global-name': ('<xs:schema {XS}><xs:element name="item" type="xs:int"/><xs:element name="label" type="xs:string"/>'
                              '<xs:element name="catalog"><xs:complexType><xs:sequence><xs:element name="item" type="xs:string" maxOccurs="unbounded"/><xs:element name="label" type="xs:int" minOccurs="0"/></xs:sequence></xs:complexType></xs:element></xs:schema>',
                              ['<catalog><item>abc</item></catalog>', '<catalog><item>5</item><label>7</label></catalog>', '<catalog><item>5</item><label>seven</label></catalog>', '<catalog><item>a</item><item>b</item><label>x</label></catalog>']),
+    # attributes and children that only a strict wildcard admits and that have no declaration: 'not found' is an error in every mode
+    'strict-wildcards': ('<xs:schema {XS} targetNamespace="urn:t" xmlns:t="urn:t"><xs:attribute name="known" type="xs:int"/><xs:element name="k" type="xs:int"/><xs:element name="r"><xs:complexType><xs:sequence>'
+                         '<xs:any namespace="##targetNamespace" minOccurs="0" maxOccurs="unbounded"/></xs:sequence><xs:anyAttribute namespace="##targetNamespace"/></xs:complexType></xs:element></xs:schema>',
+                         ['<t:r xmlns:t="urn:t" t:known="1"/>', '<t:r xmlns:t="urn:t" t:unknown="1"/>', '<t:r xmlns:t="urn:t" t:known="x"/>', '<t:r xmlns:t="urn:t"><t:k>1</t:k></t:r>',
+                          '<t:r xmlns:t="urn:t"><t:k>x</t:k></t:r>', '<t:r xmlns:t="urn:t" t:known="1" t:unknown="2"><t:k>1</t:k></t:r>']),      # (undeclared CHILDREN under a strict wildcard: a listed C06 finding for the lazy channels)
     'simple-fixed': ('<xs:schema {XS}><xs:element name="f" type="xs:decimal" fixed="1.0"/></xs:schema>', ['<f>1</f>', '<f/>', '<f> 1.00 </f>', '<f>2</f>', '<f> </f>']),
 }
 XS = 'xmlns:xs="http://www.w3.org/2001/XMLSchema"'
